@@ -488,6 +488,7 @@ func (d *dumper) instr(ins ssa.Instruction) J {
 		j["op"] = "Store"
 		j["addr"] = d.ref(x.Addr)
 		j["val"] = d.ref(x.Val)
+		j["vt"] = d.tid(x.Val.Type())
 	case *ssa.TypeAssert:
 		j["op"] = "TypeAssert"
 		j["x"] = d.ref(x.X)
